@@ -6,7 +6,19 @@ package meta
 
 import (
 	"sync/atomic"
+	"unicode/utf8"
 )
+
+// nextPos returns the offset just past the code point that starts at pos (pos+1 at or beyond
+// the end of b, and for an invalid byte). This is how far stdlib regexp advances after an
+// empty match, so successive empty matches never land inside a multi-byte code point.
+func nextPos(b []byte, pos int) int {
+	if pos >= len(b) || b[pos] < utf8.RuneSelf {
+		return pos + 1
+	}
+	_, w := utf8.DecodeRune(b[pos:])
+	return pos + w
+}
 
 // FindSubmatch returns the first match with capture group information.
 // Returns nil if no match is found.
@@ -249,7 +261,7 @@ func (e *Engine) findAllIndicesLoop(haystack []byte, n int, results [][2]int) []
 		// - "a*" on "ab" returns [[0 1] [2 2]], not [[0 1] [1 1] [2 2]]
 		//nolint:gocritic // badCond: intentional - checking empty match (start==end) at lastMatchEnd
 		if start == end && start == lastMatchEnd {
-			pos++
+			pos = nextPos(haystack, pos)
 			if pos > len(haystack) {
 				break
 			}
@@ -267,7 +279,7 @@ func (e *Engine) findAllIndicesLoop(haystack []byte, n int, results [][2]int) []
 		switch {
 		case start == end:
 			// Empty match: advance by 1 to avoid infinite loop
-			pos = end + 1
+			pos = nextPos(haystack, end)
 		case end > pos:
 			pos = end
 		default:
@@ -341,7 +353,7 @@ func (e *Engine) Count(haystack []byte, n int) int {
 		// Skip empty matches at lastNonEmptyEnd (stdlib behavior)
 		//nolint:gocritic // badCond: intentional - checking empty match (start==end) at lastNonEmptyEnd
 		if start == end && start == lastNonEmptyEnd {
-			pos++
+			pos = nextPos(haystack, pos)
 			if pos > len(haystack) {
 				break
 			}
@@ -359,7 +371,7 @@ func (e *Engine) Count(haystack []byte, n int) int {
 		switch {
 		case start == end:
 			// Empty match: advance by 1 to avoid infinite loop
-			pos = end + 1
+			pos = nextPos(haystack, end)
 		case end > pos:
 			pos = end
 		default:
@@ -413,7 +425,7 @@ func (e *Engine) FindAllSubmatch(haystack []byte, n int) []*MatchWithCaptures {
 		// Skip empty matches at the end of previous non-empty match (stdlib behavior)
 		//nolint:gocritic // badCond: intentional - checking empty match at lastMatchEnd
 		if matchStart == matchEnd && matchStart == lastMatchEnd {
-			pos++
+			pos = nextPos(haystack, pos)
 			if pos > len(haystack) {
 				break
 			}
@@ -430,7 +442,7 @@ func (e *Engine) FindAllSubmatch(haystack []byte, n int) []*MatchWithCaptures {
 		// Move position past this match
 		switch {
 		case matchStart == matchEnd:
-			pos = matchEnd + 1
+			pos = nextPos(haystack, matchEnd)
 		case matchEnd > pos:
 			pos = matchEnd
 		default:
